@@ -879,7 +879,12 @@ fn parse_remb_body(body: &[u8]) -> RtpResult<RemoteBitrateEstimate> {
     let mantissa = ((u32::from(body[13] & 0x03) << 16)
         | (u32::from(body[14]) << 8)
         | u32::from(body[15])) as u64;
-    let bitrate_bps = mantissa << exponent;
+    // 18-bit mantissa << 6-bit exponent overflows u64 from exponent 47 on: saturate.
+    let bitrate_bps = if mantissa.leading_zeros() >= exponent as u32 {
+        mantissa << exponent
+    } else {
+        u64::MAX
+    };
     let mut ssrcs = Vec::with_capacity(num_ssrc);
     let mut offset = 16;
     for _ in 0..num_ssrc {
